@@ -96,6 +96,9 @@ func genC05(t *rapid.T) C05Case {
 			}
 		}
 		c.X = h.SpecOf(x, h.GenPrecFor(t, "xp", len(x.Digits)), h.GenMode(t, "xm"))
+		// the operand's own history (a leftover accuracy from an earlier inexact rounding, zero-padded or over-long
+		// mantissas, stale buffers) must not leak into the exactness decision
+		c.X.Hist = h.GenHist(t, "xh")
 		c.P = uint(p)
 	default:
 		c.X = h.GenFinite(t, "x", lim)
